@@ -58,6 +58,14 @@ __all__ = (
 
 NOARG = object()
 
+# Verification hook (guarded): with PYTABLEAUX_VERIF=1 lexical hashes do not
+# depend on the address of the Lexical class object, so that the iteration
+# order of sets of lexical items is reproducible across processes and can be
+# varied with PYTABLEAUX_VERIF_ORDER.
+import os as _os
+_VERIF = _os.environ.get('PYTABLEAUX_VERIF') == '1'
+_VERIF_ORDER = int(_os.environ.get('PYTABLEAUX_VERIF_ORDER') or 0)
+
 _Ranks: Mapping[str, int] = MapProxy(dict(
     Predicate  = 10,
     Constant   = 20,
@@ -213,6 +221,8 @@ class Lexical:
         This method should generally not need to be called, as it is used to
         generate and cache the instance :attr:`hash` property.
         """
+        if _VERIF:
+            return hash((_VERIF_ORDER, item.sort_tuple))
         return hash((__class__, item.sort_tuple))
 
     @staticmethod
